@@ -364,12 +364,9 @@ Module View.
   Definition root_view (id : nat) (q : qfam * option dir) (f : fam) (w : nat) : view :=
     mkview id q (KVec f) (seq 0 w) RNone.
 
-  (** python  data[a:b]  for a list of length n *)
-  Definition norm (n x : Z) : Z := if (x <? 0)%Z then Z.max 0 (x + n) else Z.min x n.
-  Definition pyslice {A} (l : list A) (a b : Z) : list A :=
-    let n := Z.of_nat (length l) in
-    let a' := Z.to_nat (norm n a) in let b' := Z.to_nat (norm n b) in
-    firstn (b' - a') (skipn a' l).
+  (** data[lo : hi+1]  for 0 <= lo <= hi < len(data) *)
+  Definition subrange {A} (l : list A) (lo hi : Z) : list A :=
+    firstn (Z.to_nat (hi - lo + 1)) (skipn (Z.to_nat lo) l).
 
   Definition next_base (s : rspec) : list Z :=
     match s with RSlice _ stop base => base ++ [stop] | _ => [] end.
@@ -390,9 +387,9 @@ Module View.
         | KBit => None
         | KVec _ =>
             if (lo <=? hi)%Z then
-              let c := pyslice (vcells v) lo (hi + 1) in
-              if Z.eqb (Z.of_nat (length c)) (hi - lo + 1)        (* assert self._width == len(val) *)
-              then Some (mkview (vroot v) (vq v) (KVec FBV) c (RSlice hi lo (next_base (vspec v))))
+              (* assert 0 <= stop and start < self.width  (before BitVector[width] is subscripted) *)
+              if ((0 <=? lo) && (hi <? Z.of_nat (length (vcells v))))%Z
+              then Some (mkview (vroot v) (vq v) (KVec FBV) (subrange (vcells v) lo hi) (RSlice hi lo (next_base (vspec v))))
               else None
             else None                                             (* RuntimeError("not implemented") *)
         end
@@ -410,9 +407,9 @@ Module View.
         match vkind_ v with
         | KBit => None
         | KVec _ =>
-            let off := match vspec v with RSlice _ stop _ => stop | _ => 0%Z end in  (* base_offset is dropped, as coded *)
+            (* Offset(nr, [*last_ref.base_offset, last_ref.stop]) : same addressing as __getitem__ *)
             match nth_error (vcells v) k with
-            | Some c => Some (mkview (vroot v) (vq v) KBit [c] (ROffset (off + Z.of_nat k) []))
+            | Some c => Some (mkview (vroot v) (vq v) KBit [c] (ROffset (Z.of_nat k) (next_base (vspec v))))
             | None => None end
         end
     end.
